@@ -1,7 +1,14 @@
 (* C02 - Supervisor: shutdown always completes (promptly or at timeout), never crashes.
-   Statements only.  `can_progress c s` = some step is enabled that is neither a timer nor a free
-   choice of the environment: an internal step, a step the implementation performs by itself, or
-   the return of a Run/Stop/Reload/IsRunning call that a contract-abiding runnable owes. *)
+   Statements only.  Progress is stated PER THREAD (SupProgress.v):
+   `body_can_progress c s`   = a step is enabled that is the shutdown body's own next step or a step of a
+                               goroutine the body is waiting for in its present position (inside Stop(i) of a
+                               lifecycle-style runnable: the goroutine of runnable i; inside wg.Wait(): a member
+                               of the WaitGroup) - never a timer, never a step of an unrelated thread;
+   `main_can_progress c s`   = a step of Run()'s own goroutine is enabled (the return of an IsRunning() call
+                               only while Run() is inside one);
+   `caller_can_progress c s k` = the Shutdown() caller k can enter / return.
+   The initial state has no Run() goroutine: Run() is called by the environment (LRunEnter, LRunEntered),
+   possibly AFTER Shutdown(). *)
 From Coq Require Import List Bool Arith Lia.
 From GS Require Import LTS Supervisor SupAccept SupProps SupInv SupOnce SupCensus SupProgress SupMeasure.
 Import ListNotations.
@@ -9,23 +16,26 @@ Import ListNotations.
 (* Provided the runnables behave like the bundled ones (`good c`: no Run stays inside forever once it
    was told to stop or its context ended - a Run that returns by itself, with or without an error, is
    covered; Stop blocks at most until its Run has been invoked and has returned - both Stop styles are
-   covered), then in EVERY reachable state in which the shutdown body has started and is not done,
-   progress is possible without the shutdown timeout: no deadlock and no time-lock, whatever the
-   trigger mix, the number of runnables, and whether shutdown began during start-up. *)
+   covered; a Reload() call in progress returns), and EXCLUDING one shape (`sdfirst_ok c s`: if Shutdown()
+   closed the launch gate before Run() was entered then every Stop is non-blocking - see
+   C02_shutdown_before_run_refuted), then in EVERY reachable state in which the shutdown body has started
+   and is not done, the body or what it is waiting for can move without the shutdown timeout: no deadlock
+   and no time-lock, whatever the trigger mix, the number of runnables, and whether shutdown began during
+   start-up. *)
 Theorem C02_no_deadlock_no_timelock : forall c s,
-  reachable_sup c s -> good c ->
-  match sd s with SdNot | SdDone => True | _ => can_progress c s end.
+  reachable_sup c s -> good c -> sdfirst_ok c s ->
+  match sd s with SdNot | SdDone => True | _ => body_can_progress c s end.
 Proof. exact sup_c02_body_progress. Qed.
 
-(* ... and once the body is done (without the timeout having fired), Run() can always take its next
-   step until it has returned, and every Shutdown() caller returns. *)
+(* ... and once the body is done (whether or not the timeout has fired), Run() - if it was called at all -
+   can always take its next step until it has returned, and every Shutdown() caller returns. *)
 Theorem C02_run_returns : forall c s,
-  0 < nrun c -> reachable_sup c s -> sd s = SdDone -> sd_timed_out s = false ->
-  (exists r, main s = MReturned r) \/ can_progress c s.
+  0 < nrun c -> reachable_sup c s -> sd s = SdDone ->
+  main s = MNew \/ (exists r, main s = MReturned r) \/ main_can_progress c s.
 Proof. exact sup_c02_main_progress. Qed.
 
 Theorem C02_shutdown_callers_return : forall c s k cs,
-  sd s = SdDone -> find_caller k (callers s) = Some (OpShutdown, cs) -> can_progress c s.
+  sd s = SdDone -> find_caller k (callers s) = Some (OpShutdown, cs) -> caller_can_progress c s k.
 Proof. exact sup_c02_caller_returns. Qed.
 
 (* After such a clean completion every runnable goroutine has finished (the WaitGroup is zero). *)
@@ -61,10 +71,97 @@ Example C02_ex_good : good c02_cfg.
 Proof. intros i Hi. destruct i; [discriminate|cbn in Hi; inversion Hi; inversion H0]. Qed.
 Example C02_ex_in_stop :
   exists s, run (step c02_cfg) (init c02_cfg)
-              [LLaunch 0; LRunCall 0; LCall 1 OpShutdown; LCallerGo 1; LStopCall 0] = Some s
-            /\ sd s = SdIn 0 /\ step c02_cfg s (LStopRet 0) = None
-            /\ step c02_cfg s (LRunRet 0 None) <> None.
-Proof. eexists. split; [vm_compute; reflexivity|]. split; [reflexivity|]. split; vm_compute; [reflexivity|discriminate]. Qed.
+              [LRunEnter; LRunEntered; LLaunch 0; LRunCall 0; LCall 1 OpShutdown; LCallerGo 1; LStopCall 0] = Some s
+            /\ sd s = SdIn 0 /\ sdfirst_ok c02_cfg s /\ step c02_cfg s (LStopRet 0) = None
+            /\ step c02_cfg s (LRunRet 0 None) <> None /\ body_step s (LRunRet 0 None) = true.
+Proof.
+  eexists. split; [vm_compute; reflexivity|]. split; [reflexivity|]. split; [intros X; discriminate X|].
+  split; [vm_compute; reflexivity|]. split; [vm_compute; discriminate|reflexivity].
+Qed.
+
+(* ---- Shutdown() BEFORE Run(): the excluded shape is a real behaviour (finding shutdown-before-run-blocks-forever) ---- *)
+
+(* REFUTED without `sdfirst_ok`.  One lifecycle-style runnable (Stop blocks until its Run has been invoked and
+   has returned, exactly like the bundled runnables; Run returns when signalled: `good`).  Shutdown() is called
+   before Run(): it calls Stop() on the registered runnable, whose Run was not and will never be invoked; Stop()
+   blocks forever; the context is never cancelled and the shutdown timer (armed only after the Stop loop) never
+   exists.  Run() is then called: the launch gate is closed, it starts nothing and blocks in reap().
+   The state reached satisfies every hypothesis of C02_stuck_returned except sdfirst_ok, no step of the
+   implementation is enabled (not even a timer: shutdown_may_fire = true here), and its conclusion fails: the
+   shutdown body is not done, Run() has not returned, the Shutdown() caller is still inside. *)
+Definition c02_first_cfg : config :=
+  {| specs := specs c02_cfg; startup_may_fire := true; shutdown_may_fire := true |}.
+Definition c02_first_sched : list label :=
+  [LCall 1 OpShutdown; LCallerGo 1; LStopCall 0; LRunEnter; LRunEntered; LLaunch 0].
+Definition c02_first_hung : state :=
+  match run (step c02_first_cfg) (init c02_first_cfg) c02_first_sched with Some s => s | None => init c02_first_cfg end.
+Theorem C02_shutdown_before_run_refuted :
+  good c02_first_cfg /\ 0 < nrun c02_first_cfg /\
+  run (step c02_first_cfg) (init c02_first_cfg) c02_first_sched = Some c02_first_hung /\
+  sd c02_first_hung <> SdNot /\ system_stuck c02_first_cfg c02_first_hung /\
+  sd_all (aux c02_first_hung) = true /\ stop_style (spec c02_first_cfg 0) = StopUntilRunDone /\
+  sd c02_first_hung = SdIn 0 /\ rn_at c02_first_hung 0 = RnNot /\ main c02_first_hung = MReap /\
+  find_caller 1 (callers c02_first_hung) = Some (OpShutdown, CPending) /\
+  own_cancel c02_first_hung = false.
+Proof.
+  split; [intros i Hi; destruct i; [discriminate|cbn in Hi; lia]|]. split; [cbn; lia|].
+  split; [vm_compute; reflexivity|]. split; [vm_compute; discriminate|].
+  split; [concrete_stuck|]. repeat split; vm_compute; reflexivity.
+Qed.
+
+(* What holds: when every Stop is non-blocking the shape is harmless (sdfirst_ok holds in every state), so
+   all the theorems of this file apply to Shutdown()-before-Run() as well ... *)
+Theorem C02_shutdown_before_run_nonblocking : forall c s,
+  (forall i, i < nrun c -> stop_style (spec c i) = StopNonBlocking) -> sdfirst_ok c s.
+Proof. intros c s H _. exact H. Qed.
+
+(* ... and so they do whenever Run() was entered before the launch gate was closed *)
+Theorem C02_run_first_ok : forall c s, sd_all (aux s) = false -> sdfirst_ok c s.
+Proof. intros c s H X. congruence. Qed.
+
+(* non-vacuity of all hypotheses at once on a Shutdown()-before-Run() execution (sd_all = true): two
+   runnables with non-blocking Stop; both are stopped although never run; Shutdown() returns; a later Run()
+   starts nothing and returns nil *)
+Definition c02_nb_cfg : config :=
+  {| specs := [dflt_spec; dflt_spec]; startup_may_fire := false; shutdown_may_fire := false |}.
+Definition c02_nb_pre : list label := [LCall 1 OpShutdown; LCallerGo 1].
+Definition c02_nb_rest : list label :=
+  [LStopCall 1; LStopRet 1; LStopCall 0; LStopRet 0; LSdCancel; LSdWgDone; LRet 1 OpShutdown].
+Definition c02_nb_later : list label := [LRunEnter; LRunEntered; LLaunch 0; LReapCtx; LMainShutdown; LMainReturn ResNil].
+Definition c02_nb_mid : state :=
+  match run (step c02_nb_cfg) (init c02_nb_cfg) c02_nb_pre with Some s => s | None => init c02_nb_cfg end.
+Definition c02_nb_done : state :=
+  match run (step c02_nb_cfg) c02_nb_mid c02_nb_rest with Some s => s | None => init c02_nb_cfg end.
+Definition c02_nb_final : state :=
+  match run (step c02_nb_cfg) c02_nb_done c02_nb_later with Some s => s | None => init c02_nb_cfg end.
+Example C02_ex_shutdown_before_run_all_hypotheses :
+  good c02_nb_cfg /\ 0 < nrun c02_nb_cfg /\
+  reachable_sup c02_nb_cfg c02_nb_mid /\ sd c02_nb_mid <> SdNot /\ sd_all (aux c02_nb_mid) = true /\
+  sdfirst_ok c02_nb_cfg c02_nb_mid /\
+  run (step c02_nb_cfg) c02_nb_mid c02_nb_rest = Some c02_nb_done /\ forallb is_system c02_nb_rest = true /\
+  reachable_sup c02_nb_cfg c02_nb_done /\ sdfirst_ok c02_nb_cfg c02_nb_done /\
+  system_stuck c02_nb_cfg c02_nb_done /\ sd c02_nb_done = SdDone /\ main c02_nb_done = MNew /\
+  callers c02_nb_done = [] /\
+  run (step c02_nb_cfg) c02_nb_done c02_nb_later = Some c02_nb_final /\
+  system_stuck c02_nb_cfg c02_nb_final /\ main c02_nb_final = MReturned ResNil /\ launched c02_nb_final = 0.
+Proof.
+  assert (NB : forall i, i < nrun c02_nb_cfg -> stop_style (spec c02_nb_cfg i) = StopNonBlocking)
+    by (intros i Hi; destruct i as [|[|i]]; [reflexivity|reflexivity|cbn in Hi; lia]).
+  split; [intros i Hi; destruct i as [|[|i]]; [discriminate|discriminate|cbn in Hi; lia]|].
+  split; [cbn; lia|]. split; [exists c02_nb_pre; vm_compute; reflexivity|]. split; [vm_compute; discriminate|].
+  split; [vm_compute; reflexivity|]. split; [now apply C02_shutdown_before_run_nonblocking|].
+  split; [vm_compute; reflexivity|]. split; [reflexivity|].
+  split; [exists (c02_nb_pre ++ c02_nb_rest); vm_compute; reflexivity|].
+  split; [now apply C02_shutdown_before_run_nonblocking|].
+  split; [concrete_stuck|]. split; [vm_compute; reflexivity|]. split; [vm_compute; reflexivity|].
+  split; [vm_compute; reflexivity|]. split; [vm_compute; reflexivity|].
+  split; [apply mu_zero_stuck; [vm_compute; discriminate|vm_compute; reflexivity]|].
+  split; vm_compute; reflexivity.
+Qed.
+
+Print Assumptions C02_shutdown_before_run_refuted.
+Print Assumptions C02_shutdown_before_run_nonblocking.
+Print Assumptions C02_run_first_ok.
 
 (* ---- termination: a measure, not only the absence of stuck states ---- *)
 
@@ -93,18 +190,19 @@ Proof. exact sup_c02_bounded. Qed.
 
 (* Every maximal execution of the implementation after shutdown start (from a reachable state, with
    runnables satisfying `good c`: run_exit <> ExitNever) has at most mu steps, and where it can go no further the
-   shutdown body is done and Run() HAS RETURNED. *)
+   shutdown body is done and Run() HAS RETURNED (main = MNew: Run() was never called - it then has nothing to
+   return from; once called, MEntering always has the enabled step LRunEntered). *)
 Theorem C02_maximal_execution_returns : forall c s ls s',
-  good c -> 0 < nrun c -> reachable_sup c s -> sd s <> SdNot ->
+  good c -> 0 < nrun c -> reachable_sup c s -> sd s <> SdNot -> sdfirst_ok c s ->
   run (step c) s ls = Some s' -> forallb is_system ls = true ->
   length ls <= mu c s /\
-  (system_stuck c s' -> sd s' = SdDone /\ exists r, main s' = MReturned r).
+  (system_stuck c s' -> sd s' = SdDone /\ (main s' = MNew \/ exists r, main s' = MReturned r)).
 Proof. exact sup_c02_maximal. Qed.
 
 (* ... and no Shutdown() caller is left inside the library. *)
 Theorem C02_stuck_returned : forall c s,
-  good c -> 0 < nrun c -> reachable_sup c s -> sd s <> SdNot -> system_stuck c s ->
-  sd s = SdDone /\ (exists r, main s = MReturned r) /\
+  good c -> 0 < nrun c -> reachable_sup c s -> sd s <> SdNot -> sdfirst_ok c s -> system_stuck c s ->
+  sd s = SdDone /\ (main s = MNew \/ exists r, main s = MReturned r) /\
   (forall k cs, find_caller k (callers s) <> Some (OpShutdown, cs)).
 Proof. exact sup_c02_stuck_returned. Qed.
 
@@ -126,7 +224,7 @@ Definition c02_free_spec (st : bool) (ss : sstyle) : rspec :=
 Definition c02_free_cfg : config :=
   {| specs := [c02_free_spec false StopUntilRunDone]; startup_may_fire := false; shutdown_may_fire := false |}.
 Definition c02_free_pre : list label :=
-  [LLaunch 0; LRunCall 0; LRunRet 0 (Some (7, false)); LErrSend 0; LReapErr; LMainShutdown].
+  [LRunEnter; LRunEntered; LLaunch 0; LRunCall 0; LRunRet 0 (Some (7, false)); LErrSend 0; LReapErr; LMainShutdown].
 Definition c02_free_rest : list label :=
   [LStopCall 0; LStopRet 0; LSdCancel; LSdWgDone; LMainReturn (ResErr 7)].
 Definition c02_free_mid : state :=
@@ -137,7 +235,7 @@ Example C02_ex_free_good : good c02_free_cfg /\ 0 < nrun c02_free_cfg.
 Proof. split; [|cbn; auto]. intros i Hi. destruct i; [discriminate|cbn in Hi; inversion Hi; inversion H0]. Qed.
 Example C02_ex_error_exit_all_hypotheses :
   good c02_free_cfg /\ 0 < nrun c02_free_cfg /\
-  reachable_sup c02_free_cfg c02_free_mid /\ sd c02_free_mid <> SdNot /\
+  reachable_sup c02_free_cfg c02_free_mid /\ sd c02_free_mid <> SdNot /\ sdfirst_ok c02_free_cfg c02_free_mid /\
   run (step c02_free_cfg) c02_free_mid c02_free_rest = Some c02_free_final /\
   forallb is_system c02_free_rest = true /\
   reachable_sup c02_free_cfg c02_free_final /\ sd c02_free_final <> SdNot /\
@@ -146,6 +244,7 @@ Example C02_ex_error_exit_all_hypotheses :
 Proof.
   split; [exact (proj1 C02_ex_free_good)|]. split; [exact (proj2 C02_ex_free_good)|].
   split; [exists c02_free_pre; vm_compute; reflexivity|]. split; [vm_compute; discriminate|].
+  split; [apply C02_run_first_ok; vm_compute; reflexivity|].
   split; [vm_compute; reflexivity|]. split; [reflexivity|].
   split; [exists (c02_free_pre ++ c02_free_rest); vm_compute; reflexivity|].
   split; [vm_compute; discriminate|].
@@ -159,7 +258,7 @@ Definition c02_sf_cfg : config :=
   {| specs := [c02_free_spec true StopUntilRunDone; c02_free_spec false StopUntilRunDone];
      startup_may_fire := false; shutdown_may_fire := false |}.
 Definition c02_sf_pre : list label :=
-  [LLaunch 0; LRunStore 0; LRunCall 0; LPoll 0 false; LRunRet 0 (Some (9, false)); LErrSend 0; LGateErr 0; LMainShutdown].
+  [LRunEnter; LRunEntered; LLaunch 0; LRunStore 0; LRunCall 0; LPoll 0 false; LRunRet 0 (Some (9, false)); LErrSend 0; LGateErr 0; LMainShutdown].
 Definition c02_sf_rest : list label :=
   [LStopCall 0; LStopRet 0; LSdCancel; LStmExit; LSdWgDone; LMainReturn (ResErr 9)].
 Definition c02_sf_mid : state :=
@@ -168,7 +267,7 @@ Definition c02_sf_final : state :=
   match run (step c02_sf_cfg) c02_sf_mid c02_sf_rest with Some s => s | None => init c02_sf_cfg end.
 Example C02_ex_startup_failure_all_hypotheses :
   good c02_sf_cfg /\ 0 < nrun c02_sf_cfg /\
-  reachable_sup c02_sf_cfg c02_sf_mid /\ sd c02_sf_mid = SdNext 1 /\
+  reachable_sup c02_sf_cfg c02_sf_mid /\ sd c02_sf_mid = SdNext 1 /\ sdfirst_ok c02_sf_cfg c02_sf_mid /\
   run (step c02_sf_cfg) c02_sf_mid c02_sf_rest = Some c02_sf_final /\
   forallb is_system c02_sf_rest = true /\
   reachable_sup c02_sf_cfg c02_sf_final /\ sd c02_sf_final <> SdNot /\
@@ -179,6 +278,7 @@ Proof.
   split; [intros i Hi; destruct i as [|[|i]]; [discriminate|discriminate|cbn in Hi; lia]|].
   split; [cbn; auto|].
   split; [exists c02_sf_pre; vm_compute; reflexivity|]. split; [vm_compute; reflexivity|].
+  split; [apply C02_run_first_ok; vm_compute; reflexivity|].
   split; [vm_compute; reflexivity|]. split; [reflexivity|].
   split; [exists (c02_sf_pre ++ c02_sf_rest); vm_compute; reflexivity|].
   split; [vm_compute; discriminate|].
@@ -188,7 +288,7 @@ Qed.
 
 (* non-vacuity: a complete shutdown of c02_cfg; the measure goes from 13 to 0 in 9 implementation
    steps, and with measure 0 no implementation step is enabled *)
-Definition c02_pre : list label := [LLaunch 0; LRunCall 0; LCall 1 OpShutdown; LCallerGo 1].
+Definition c02_pre : list label := [LRunEnter; LRunEntered; LLaunch 0; LRunCall 0; LCall 1 OpShutdown; LCallerGo 1].
 Definition c02_rest : list label :=
   [LStopCall 0; LRunRet 0 None; LStopRet 0; LSdCancel; LSdWgDone; LReapCtx; LMainShutdown;
    LMainReturn ResNil; LRet 1 OpShutdown].
